@@ -120,3 +120,14 @@ Definition num_sweep (vs : list float) (len : nat) : bool :=
         end) [true; false])
       (zseq 1 (S (length x))))
     (lists_upto vs len).
+
+(* tie to the source: the tables and constants read out of esutil/stat/util.py by
+   harness/props/c14_translate.py against those of Model.v *)
+Definition kinds_eqb (a b : list kind) : bool := zlist_eqb (map kind_code a) (map kind_code b).
+
+Definition src_tables_agree (su : list kind) (swh : kind) (sw : list kind)
+           (mu : list kind) (mwh : kind) (mw : list kind)
+           (sent : Q) (wh0 : Q) (cf : float) : bool :=
+  kinds_eqb su single_u_table && (kind_code swh =? kind_code single_whist) && kinds_eqb sw single_w_table
+  && kinds_eqb mu many_u_table && (kind_code mwh =? kind_code many_whist) && kinds_eqb mw many_w_table
+  && Qeq_bool sent sentinel && Qeq_bool wh0 whist_empty && sf_eqb cf center_factor.
